@@ -186,6 +186,50 @@ def handleSpec (W S : Nat) (segs : List (List String)) : String :=
       | some e => if e == out then "match" else "MISMATCH"
     showList out ++ " " ++ verdict
 
+/-- `anssweep`: see the harness (`run_sweep`); both sides fold the same values in the same order -/
+def sweep (W S B P lo hi : Nat) : String :=
+  let c := cfgOf W S B P
+  let total := 2^P
+  let rec goCum (st : Nat) (bulk : List Nat) (pr : Nat) (fuel cum : Nat) (h : UInt64) (count : Nat) :
+      Except String (UInt64 × Nat) :=
+    match fuel with
+    | 0 => .ok (h, count)
+    | fuel + 1 =>
+      let x : Coder := { bulk := bulk, state := st }
+      match encodeCP c x cum pr with
+      | .error _ => .error (toHex st ++ " " ++ toHex cum ++ " " ++ toHex pr ++ " => enc-error")
+      | .ok y =>
+        let h := digestStep h y.state
+        let h := digestStep h y.bulk.length
+        let h := digestStep h (y.bulk.headD 0)
+        let cdf := [0] ++ (if cum > 0 then [cum] else []) ++ [cum + pr] ++ (if cum + pr < total then [total] else [])
+        match decode c (tableModel cdf) x with
+        | .error _ => .error (toHex st ++ " " ++ toHex cum ++ " " ++ toHex pr ++ " => dec-error")
+        | .ok (sym, d) =>
+          let h := digestStep h sym
+          let h := digestStep h d.state
+          let h := digestStep h d.bulk.length
+          goCum st bulk pr fuel (cum + 1) h (count + 2)
+  let rec goP (st : Nat) (bulk : List Nat) (fuel pr : Nat) (h : UInt64) (count : Nat) :
+      Except String (UInt64 × Nat) :=
+    match fuel with
+    | 0 => .ok (h, count)
+    | fuel + 1 =>
+      match goCum st bulk pr (total - pr + 1) 0 h count with
+      | .error e => .error e
+      | .ok (h, count) => goP st bulk fuel (pr + 1) h count
+  let rec goSt (fuel st : Nat) (h : UInt64) (count : Nat) : Except String (UInt64 × Nat) :=
+    match fuel with
+    | 0 => .ok (h, count)
+    | fuel + 1 =>
+      let bulk := if st ≥ 2^(S - W) then [0xab % 2^W] else []
+      match goP st bulk (total - 1) 1 h count with
+      | .error e => .error e
+      | .ok (h, count) => goSt fuel (st + 1) h count
+  match goSt (hi - lo) lo digestInit 0 with
+  | .ok (h, count) => toHex count ++ " " ++ toHex h.toNat
+  | .error e => e
+
 def handle (segs : List (List String)) : String :=
   match segs with
   | ["ans", w, s] :: init :: ops =>
@@ -196,6 +240,10 @@ def handle (segs : List (List String)) : String :=
         if out == "err" then "err" else " | ".intercalate (runOps W S x ops [out])
       | none => "bad-op"
     | _, _ => "bad-op"
+  | [["anssweep", w, s, b, p, lo, hi]] =>
+    match parseHex w, parseHex s, parseHex b, parseHex p, parseHex lo, parseHex hi with
+    | some W, some S, some B, some P, some lo, some hi => sweep W S B P lo hi
+    | _, _, _, _, _, _ => "bad-op"
   | ["ansspec", w, s] :: ops =>
     match parseHex w, parseHex s with
     | some W, some S => handleSpec W S ops
